@@ -312,3 +312,20 @@ PROPS["C07"] = {
     "tiers": tiers("c07", qbounds="max chunk size 8196..2^24, body 1..capacity: all values; policies None, Basic128Rsa15 Sign, Basic256 and Basic256Sha256 SignAndEncrypt; unwind 20",
                    tbounds="adds Aes128Sha256RsaOaep Sign and Aes256Sha256RsaPss SignAndEncrypt"),
 }
+
+PROPS["C08"] = {
+    "module": "c08_tamper",
+    "level": MC,
+    "technique": "Kani/CBMC symbolic execution of the MAC comparison kernels (hash::verify_hmac_sha1/sha256) over every signature value, HMAC replaced by a constant stand-in; thorough: the declared-size check of verify_and_remove_security over all chunk bytes",
+    "kernels": ["opcua::crypto::hash::verify_hmac_sha1", "opcua::crypto::hash::verify_hmac_sha256", "hash::hmac_sha1/hmac_sha256/hmac", "SecureChannel::verify_and_remove_security (size check; thorough)"],
+    "explanation": "ONLY two kernels of the statement. (a) For every 20-/32-byte signature value: verify_hmac_* returns true exactly when every byte equals the computed MAC, and false for a signature that is one byte shorter or longer - so a change to any "
+                   "signature byte, and a truncated comparison, are rejected. (b, thorough) a MSG chunk whose length differs from its declared size (bytes appended or removed) is rejected by verify_and_remove_security on a Sign-mode channel, for all chunk contents.",
+    "outside": "that changing a SIGNED byte changes the MAC, that foreign keys give different MACs, decryption of modified ciphertext, certificates: all inside OpenSSL (FFI); asymmetric chunks; the path from a rejected chunk to 'never delivered as a message' (transport layer)",
+    "assumptions": ["hash::hmac_vec -> constant digest (0x5A..); MessageDigest::sha1/sha256 -> tagged handles; openssl::memcmp::eq -> c08_tamper::memcmp_eq (equal-length byte comparison, its documented contract)", "alloc::fmt::format returns an empty String"],
+    "tiers": {
+        "quick": {"groups": [{"filters": ["c08_q_"], "timeout": 600, "jobs": 4}], "bounds": "all 2^160 / 2^256 signature values; data 3 bytes, key 2 bytes; unwind 24 / 36"},
+        "thorough": {"groups": [{"filters": ["c08_q_"], "timeout": 600, "jobs": 4},
+                                {"filters": ["c09_q_msg_sign_sha1_size_below_buffer", "c09_t_msg_sign_sha1_size_above_buffer"], "timeout": 2400, "jobs": 2, "mem_gb": 30, "cbmc_args": ["--unwindset", "memcmp.0:60"]}],
+                     "bounds": "adds: 48-byte buffer declaring 44 bytes, 44-byte buffer declaring 48 bytes (all other bytes symbolic)"},
+    },
+}
